@@ -1,0 +1,8 @@
+//go:build !verif
+
+package main
+
+import "github.com/atlassian/gostatsd/pkg/statsd"
+
+// verifDumpServer does nothing unless built with the "verif" tag.
+func verifDumpServer(*statsd.Server) {}
